@@ -12,6 +12,12 @@ import (
 // zzUsage builds one usage entry for rating group rg with nCont used-unit
 // containers; it returns the entry and the online volume it reports.
 func zzUsage(l string, rg int32, nCont int) (models.ChfConvergedChargingMultipleUnitUsage, int64) {
+	return zzUsageInd(l, rg, nCont, 4)
+}
+
+// zzUsageInd: as zzUsage with the quota management indicator forked over the
+// first nInd alternatives (ONLINE, OFFLINE, SUSPENDED, other).
+func zzUsageInd(l string, rg int32, nCont int, nInd int) (models.ChfConvergedChargingMultipleUnitUsage, int64) {
 	u := models.ChfConvergedChargingMultipleUnitUsage{RatingGroup: rg, UPFID: "upf"}
 	req := vx.Int32(l + ".requested")
 	vx.Assume(req >= 0)
@@ -21,7 +27,7 @@ func zzUsage(l string, rg int32, nCont int) (models.ChfConvergedChargingMultiple
 		li := l + ".c" + string(rune('0'+i))
 		used := vx.Int32(li + ".used")
 		vx.Assume(used >= 0)
-		ind := zzIndicator(li + ".indicator")
+		ind := zzIndicatorN(li+".indicator", nInd)
 		u.UsedUnitContainer = append(u.UsedUnitContainer, models.ChfConvergedChargingUsedUnitContainer{
 			QuotaManagementIndicator: ind, TotalVolume: used, UplinkVolume: vx.Int32(li + ".up"), DownlinkVolume: vx.Int32(li + ".down"),
 			LocalSequenceNumber: vx.Int32(li + ".seq"), ServiceSpecificUnits: vx.Int32(li + ".ssu"),
